@@ -746,3 +746,56 @@ impl<T> Iterator for RawDrain<'_, T> {
 
 impl<T> ExactSizeIterator for RawDrain<'_, T> {}
 impl<T> FusedIterator for RawDrain<'_, T> {}
+
+// Read-only introspection for the external model-based verification harness.
+// Compiled only with `--cfg griddle_verif`; never part of a normal build.
+#[cfg(griddle_verif)]
+impl<T> RawTable<T> {
+    /// The incremental-resize quota `R` this build was compiled with.
+    pub(crate) fn verif_r() -> usize {
+        R
+    }
+
+    /// `(len, capacity, buckets)` of the main table.
+    pub(crate) fn verif_main(&self) -> (usize, usize, usize) {
+        (self.table.len(), self.table.capacity(), self.table.buckets())
+    }
+
+    /// `(len, capacity, buckets, cached iterator's remaining count)` of the old table, if any.
+    pub(crate) fn verif_old(&self) -> Option<(usize, usize, usize, usize)> {
+        self.leftovers.as_ref().map(|lo| {
+            (
+                lo.table.len(),
+                lo.table.capacity(),
+                lo.table.buckets(),
+                lo.items.len(),
+            )
+        })
+    }
+
+    /// Calls `f(element, in_main)` for every element, using a *fresh* iterator over each table.
+    pub(crate) fn verif_for_each(&self, mut f: impl FnMut(&T, bool)) {
+        unsafe {
+            for b in self.table.iter() {
+                f(b.as_ref(), true);
+            }
+            if let Some(ref lo) = self.leftovers {
+                for b in lo.table.iter() {
+                    f(b.as_ref(), false);
+                }
+            }
+        }
+    }
+
+    /// Calls `f(element)` for every element a clone of the *cached* old-table iterator yields.
+    ///
+    /// Only sound if the cached iterator is consistent with the old table; callers compare
+    /// `verif_old()`'s counts first.
+    pub(crate) fn verif_cursor_for_each(&self, mut f: impl FnMut(&T)) {
+        if let Some(ref lo) = self.leftovers {
+            for b in lo.items.clone() {
+                f(unsafe { b.as_ref() });
+            }
+        }
+    }
+}
